@@ -319,7 +319,7 @@ def _loader(res, index):
     init = cls.methods.get("__init__")
     gs = cls.methods.get("get_shape")
     itf = cls.methods.get("__iter__")
-    fj = cls.methods.get("_from_json_file")
+    fj = cls.methods.get("_from_json_file") or mod.functions.get("_from_json_file")        # classmethod, or a function of the module
     pn, pd = cls.props.get("names"), cls.props.get("data")
     for nm, x in (("__init__", init), ("get_shape", gs), ("__iter__", itf), ("_from_json_file", fj), ("names", pn), ("data", pd)):
         if x is None:
@@ -416,8 +416,10 @@ def _loader(res, index):
     _v(res, ok, "LOAD-1", what, where)
     # ---- _from_json_file
     it3 = Interp(index, config=cfg)
-    r3 = it3.run_entry(fj, cls)
-    fparam = fj.params[1] if len(fj.params) > 1 else None
+    is_method = fj.cls is not None
+    dflt_ = {k_: v_ for k_, v_ in it3._defaults(fj).items() if v_ is not None and v_.kind == "class"}     # e.g. family_type=TabulatedGSDShapeFamily
+    r3 = it3.run_entry(fj, cls if is_method else None, args=dflt_ or None)
+    fparam = (fj.params[1] if len(fj.params) > 1 else None) if is_method else (fj.params[0] if fj.params else None)
     ok = False
     for e_ in r3["events"]:
         if e_.type == "construct" and e_.cls is cls:
